@@ -187,4 +187,24 @@ var Bodies = []Body{
 		b, err2 := e.Bytes()
 		return digest(err, err2, fmt.Sprintf("%x", b))
 	}},
+	// an Encoder used as the zero value (never Reset), read-backs first, runs of drawing operations
+	{"zero-value-encoder", func(s *Shared, g int) string {
+		var e encode.Encoder
+		e.HighResolutionCoordinates = g%2 == 1
+		c, n := e.CSel(), e.NSel()
+		e.SetCReg(0, true, ivg.BlendColor(0x40, 0x81, 0xc0))
+		e.StartPath(1, -3, float32(g))
+		for i := 0; i < 20; i++ {
+			e.RelLineTo(1, float32(i%3))
+		}
+		for i := 0; i < 5; i++ {
+			e.AbsQuadTo(1, 2, float32(i), 4.3)
+		}
+		e.ClosePathAbsMoveTo(2, 2)
+		e.RelSmoothCubeTo(1, 1, 2, 0)
+		e.ClosePathEndPath()
+		b, err := e.Bytes()
+		text, err2 := decode.Disassemble(b)
+		return digest(c, n, err, err2, fmt.Sprintf("%x", b), len(text))
+	}},
 }
